@@ -24,7 +24,13 @@ fn oc<T, E>(o: &Outcome<Result<T, E>>) -> &'static str {
 }
 
 fn enc_case(ctx: &mut Ctx, ke: &BigUint, id: &[u8], msg: &[u8], r: Option<&BigUint>, cls: &str) {
-    let mk = enc_master(ke);
+    let mut mk = enc_master(ke);
+    // an encryptor only has Ppub-e: for every third case the ke field is a placeholder
+    let real_mk = mk;
+    if msg.len() % 3 == 1 {
+        mk.ke = if msg.len() % 2 == 0 { [0; 4] } else { [7, 0, 0, 0] };
+        ctx.class("encryptor_has_public_key_only");
+    }
     ctx.eval();
     ctx.class(cls);
     match r {
@@ -79,7 +85,7 @@ fn enc_case(ctx: &mut Ctx, ke: &BigUint, id: &[u8], msg: &[u8], r: Option<&BigUi
     }
     // library key extraction + decryption round trip
     ctx.eval();
-    let key = match guard(|| mk.extract_key(id)) {
+    let key = match guard(|| real_mk.extract_key(id)) {
         Outcome::Ret(Some(k)) => k,
         o => {
             if r9::extract_enc_key(ke, id, r9::HID_ENC).is_some() {
@@ -202,8 +208,23 @@ fn fault_space(ctx: &mut Ctx, s: &Sample, p: &mut Prng, idx: &mut u64) {
     if mine(ctx) && !s.id.is_empty() {
         probe(ctx, s, &s.id[..s.id.len() - 1], &s.ct, "id_changed");
     }
-    // crafted C1
+    // non-canonical encodings of the same C1: coordinate + p (fits in 256 bits for ~29% of coordinates), tag untouched
     let c1 = (r9::from_b(&s.ct[1..33]), r9::from_b(&s.ct[33..65]));
+    {
+        let two256: BigUint = BigUint::from(1u32) << 256;
+        for (which, v) in [(0usize, &c1.0), (1usize, &c1.1)] {
+            if mine(ctx) {
+                if v + &pr.p < two256 {
+                    let mut t = s.ct.clone();
+                    t[1 + 32 * which..33 + 32 * which].copy_from_slice(&r9::b32(&(v + &pr.p)));
+                    probe(ctx, s, &s.id, &t, "c1_coordinate_plus_p_alias");
+                } else {
+                    ctx.class("c1_coordinate_plus_p_does_not_fit");
+                }
+            }
+        }
+    }
+    // crafted C1
     if mine(ctx) {
         crafted(ctx, s, &BigUint::zero(), &BigUint::zero(), 0x04, "c1_zero_zero");
     }
@@ -253,7 +274,7 @@ pub fn run(ctx: &mut Ctx) {
     for (n, ok) in r9::selftest(false) {
         ctx.selftest(&n, ok);
     }
-    ctx.require(&["annex_kat", "len_sweep", "fixed_r_exact", "free_r", "roundtrip", "ref_made_decrypts", "bitflip_pc_byte", "bitflip_c1", "bitflip_c2", "bitflip_c3", "truncated_inside_c1", "truncated_inside_c3", "truncated_body", "id_changed", "c1_zero_zero", "c1_offcurve_y_plus_1", "c1_offcurve_random", "pc_byte_illegal_valid_tag", "c1_other_point", "c3_zeroed", "msg_len=255", "msg_len=1", "id_empty"]);
+    ctx.require(&["annex_kat", "len_sweep", "fixed_r_exact", "free_r", "roundtrip", "ref_made_decrypts", "bitflip_pc_byte", "bitflip_c1", "bitflip_c2", "bitflip_c3", "truncated_inside_c1", "truncated_inside_c3", "truncated_body", "id_changed", "c1_zero_zero", "c1_offcurve_y_plus_1", "c1_offcurve_random", "pc_byte_illegal_valid_tag", "c1_other_point", "c1_coordinate_plus_p_alias", "c3_zeroed", "msg_len=255", "msg_len=1", "id_empty", "encryptor_has_public_key_only", "interleaved_keys_decrypt"]);
     let pr = r9::params();
     if ctx.shard == 0 {
         let ke = r9::hexn("0001EDEE3778F441F8DEA3D9FA0ACC4E07EE36C93F9A08618AF4AD85CEDE1C22");
@@ -284,7 +305,11 @@ pub fn run(ctx: &mut Ctx) {
             }
             let id = p.bytes(idlen);
             let msg = if len % 13 == 0 { vec![0u8; len] } else { p.bytes(len) };
-            let r = rand_scalar(&mut p, &(&pr.n - 1u32));
+            let r = match idx % 17 {
+                0 => BigUint::from(1 + idx % 3),
+                1 => &pr.n - 2u32 - BigUint::from(idx % 2),
+                _ => rand_scalar(&mut p, &(&pr.n - 1u32)),
+            };
             ctx.class(&format!("msg_len={}", len));
             if (len + rep as usize) % 2 == 0 {
                 enc_case(ctx, &ke, &id, &msg, Some(&r), "len_sweep");
@@ -297,6 +322,39 @@ pub fn run(ctx: &mut Ctx) {
         }
     }
     ctx.exhaustive("message lengths 1..=255", true);
+    // --- two master keys, same identity: decryptions interleaved on one thread must not depend on history
+    let nh = ctx.n(4, 100);
+    let mut prng = ctx.prng("interleave");
+    for i in 0..nh {
+        let sub = prng.next();
+        if !ctx.mine(i) {
+            continue;
+        }
+        let mut p = Prng::new(sub, "i");
+        let (kea, keb) = (rand_scalar(&mut p, &(&pr.n - 1u32)), rand_scalar(&mut p, &(&pr.n - 1u32)));
+        let id = p.bytes(6);
+        let (ma, mb) = (p.bytes(30), p.bytes(30));
+        let (ra, rb) = (rand_scalar(&mut p, &(&pr.n - 1u32)), rand_scalar(&mut p, &(&pr.n - 1u32)));
+        let (Some(cta), Some(ctb)) = (r9::encrypt(&kea, &id, &ma, &ra), r9::encrypt(&keb, &id, &mb, &rb)) else { continue };
+        let (Some(ka), Some(kb)) = (enc_key_from_ref(&kea, &id, r9::HID_ENC), enc_key_from_ref(&keb, &id, r9::HID_ENC)) else { continue };
+        let script: [(bool, bool); 7] = [(true, true), (false, false), (true, true), (false, true), (false, false), (true, false), (true, true)];
+        for (step, (use_a_key, use_a_ct)) in script.iter().enumerate() {
+            ctx.eval();
+            ctx.class("interleaved_keys_decrypt");
+            let key = if *use_a_key { &ka } else { &kb };
+            let (ct, m) = if *use_a_ct { (&cta, &ma) } else { (&ctb, &mb) };
+            let o = guard(|| key.decrypt(&id, ct));
+            let ok = match (&o, use_a_key == use_a_ct) {
+                (Outcome::Ret(Ok(got)), true) => got == m,
+                (Outcome::Ret(Err(_)), false) => true,
+                _ => false,
+            };
+            if !ok {
+                ctx.violation(&format!("decrypt:interleaved-keys:{}:{}", if use_a_key == use_a_ct { "valid-not-decrypted" } else { "wrong-key-not-rejected" }, oc(&o)), json!({"keA": hex::encode(r9::b32(&kea)), "keB": hex::encode(r9::b32(&keb)), "id": hx(&id), "step": step}));
+                break;
+            }
+        }
+    }
     // --- tamper samples (same on every shard, fault space partitioned)
     let nt = ctx.n(2, 40);
     let mut prng = ctx.prng("tamper");
@@ -307,8 +365,20 @@ pub fn run(ctx: &mut Ctx) {
         let id = prng.bytes(idl);
         let ml = if i == 0 { 21 } else { prng.range(1, 48) };
         let msg = prng.bytes(ml);
-        let r = rand_scalar(&mut prng, &(&pr.n - 1u32));
+        let mut r = rand_scalar(&mut prng, &(&pr.n - 1u32));
         let sub = prng.next();
+        if i % 2 == 0 {
+            // a sample whose C1.x (or y) has an alias x + p below 2^256
+            let two256: BigUint = BigUint::from(1u32) << 256;
+            let qb = r9::g1_add(&r9::g1_mul(&r9::h1(&id, r9::HID_ENC), &r9::g1_gen()), &r9::g1_mul(&ke, &r9::g1_gen()));
+            for _ in 0..40 {
+                let c1 = r9::g1_mul(&r, &qb).unwrap();
+                if &c1.0 + &pr.p < two256 || &c1.1 + &pr.p < two256 {
+                    break;
+                }
+                r = rand_scalar(&mut prng, &(&pr.n - 1u32));
+            }
+        }
         let (Some(ct), Some(key)) = (r9::encrypt(&ke, &id, &msg, &r), enc_key_from_ref(&ke, &id, r9::HID_ENC)) else { continue };
         let s = Sample { ke, id, msg, ct, key };
         let mut p = Prng::new(sub, "t");
